@@ -427,7 +427,20 @@ impl Exec {
                 }
                 let f = self.stale_files[*idx % self.stale_files.len()];
                 let mut b = [0u8; 16];
-                let r = match act % 11 {
+                let r = match act % 24 {
+                    11 => vm.read(Fl::Wrap, f, &mut b).map(|_| ()),
+                    12 => vm.write(Fl::Wrap, f, &[1, 2, 3]).map(|_| ()),
+                    13 => vm.flush(Fl::Wrap, f),
+                    14 => vm.seek_start(Fl::Wrap, f, 0),
+                    15 => vm.seek_cur(Fl::Wrap, f, 0),
+                    16 => vm.seek_end(Fl::Wrap, f, 0),
+                    17 => vm.close_file(Fl::Wrap, f),
+                    18 => vm.read(Fl::Io, f, &mut b).map(|_| ()),
+                    19 => vm.write(Fl::Io, f, &[1, 2, 3]).map(|_| ()),
+                    20 => vm.flush(Fl::Io, f),
+                    21 => vm.seek_io(f, SeekTo::Start(0)).map(|_| ()),
+                    22 => vm.seek_io(f, SeekTo::End(0)).map(|_| ()),
+                    23 => vm.seek_io(f, SeekTo::Current(0)).map(|_| ()),
                     0 => vm.read(Fl::Raw, f, &mut b).map(|_| ()),
                     1 => vm.write(Fl::Raw, f, &[1, 2, 3]).map(|_| ()),
                     2 => vm.close_file(Fl::Raw, f),
@@ -551,6 +564,17 @@ impl Exec {
                             p(&format!("file_length[{}]", tagname), vm.length(Fl::Raw, f).map(|_| ()));
                             p(&format!("file_offset[{}]", tagname), vm.offset(Fl::Raw, f).map(|_| ()));
                             p(&format!("Seek::seek[{}]", tagname), vm.seek_io(f, SeekTo::Start(0)).map(|_| ()));
+                            // the wrapper type and the embedded-io traits, every variant
+                            p(&format!("Seek::seek(End)[{}]", tagname), vm.seek_io(f, SeekTo::End(0)).map(|_| ()));
+                            p(&format!("Seek::seek(Current)[{}]", tagname), vm.seek_io(f, SeekTo::Current(0)).map(|_| ()));
+                            p(&format!("Read::read[{}]", tagname), vm.read(Fl::Io, f, &mut b).map(|_| ()));
+                            p(&format!("Write::write[{}]", tagname), vm.write(Fl::Io, f, &[9, 9]).map(|_| ()));
+                            p(&format!("Write::flush[{}]", tagname), vm.flush(Fl::Io, f));
+                            p(&format!("File::flush[{}]", tagname), vm.flush(Fl::Wrap, f));
+                            p(&format!("File::seek_from_start[{}]", tagname), vm.seek_start(Fl::Wrap, f, 0));
+                            p(&format!("File::seek_from_current[{}]", tagname), vm.seek_cur(Fl::Wrap, f, 0));
+                            p(&format!("File::seek_from_end[{}]", tagname), vm.seek_end(Fl::Wrap, f, 0));
+                            p(&format!("File::close[{}]", tagname), vm.close_file(Fl::Wrap, f));
                             p(&format!("close_file[{}]", tagname), vm.close_file(Fl::Raw, f));
                         }
                     }
